@@ -143,10 +143,19 @@ func init() {
 	s["net/http.NewRequestWithContext"] = func(in *Interp, fr *frame, a []Value) Value {
 		rt := fr.fn.Signature.Results().At(0).Type().(*types.Pointer).Elem()
 		var cell Value = in.zero(rt)
+		if u, ok := in.goString(a[2]); ok {
+			in.env.httpURLs = append(in.env.httpURLs, u)
+		}
 		hi := structFieldIndex(rt, "Header")
 		ht := rt.Underlying().(*types.Struct).Field(hi).Type()
 		cell.(Struct)[hi] = &MapV{Typ: ht.Underlying().(*types.Map)}
 		return Tuple{&cell, Iface{}}
+	}
+	harnessAPI["vHTTPLastURL"] = func(in *Interp, fr *frame, a []Value) Value {
+		if n := len(in.env.httpURLs); n > 0 {
+			return in.env.httpURLs[n-1]
+		}
+		return ""
 	}
 	s["(net/http.Header).Set"] = func(in *Interp, fr *frame, a []Value) Value { return nil }
 	s["(net/http.Header).Add"] = s["(net/http.Header).Set"]
